@@ -24,7 +24,7 @@ def cache_jobs(bits, tmo, skip=()):
         d.update(defines or {})
         if name in skip:
             return
-        js.append(Job(name + sfx, "C17/" + harness, defines=d, unwind=U, kind="bounded", bound=bound, functions=functions,
+        js.append(Job(name + sfx, "C17/" + harness, defines=d, unwind=U, termination_by_unwind=True, kind="bounded", bound=bound, functions=functions,
                       domain=dom, cbmc_flags=CHK, timeout=tmo, assumptions=stubs + (assumptions or []), **kw))
 
     J("lookup", "lookup.c", ["pixman_glyph_cache_lookup", "lookup_glyph"], min_props=10)
@@ -40,7 +40,7 @@ def cache_jobs(bits, tmo, skip=()):
       assumptions=["pixman_glyph_cache_thaw: freeze_count >= 1 (thaw pairs with an earlier freeze)"])
     J("lifecycle", "lifecycle.c", ["pixman_glyph_cache_create", "pixman_glyph_cache_freeze", "pixman_glyph_cache_destroy"], min_props=8,
       assumptions=["pixman_glyph_cache_freeze: freeze_count < INT_MAX"])
-    js.append(Job("history.fill_then_lookup" + sfx, "C17/history.c", defines={"PIXMAN_VERIF_GLYPH_HASH_BITS": bits}, unwind=U,
+    js.append(Job("history.fill_then_lookup" + sfx, "C17/history.c", defines={"PIXMAN_VERIF_GLYPH_HASH_BITS": bits}, unwind=U, termination_by_unwind=True,
                   kind="bounded", bound=bound + "; one freeze, <= %d inserts of fresh keys, then one lookup" % n,
                   functions=["pixman_glyph_cache_create", "pixman_glyph_cache_freeze", "pixman_glyph_cache_insert",
                              "pixman_glyph_cache_lookup", "lookup_glyph", "insert_glyph", "hash"],
